@@ -579,21 +579,41 @@ enum Fault {
     Exhaust(usize),
     /// every openat2 fails with EAGAIN
     AlwaysEagain,
+    /// every call of this kind fails with this errno
+    Persistent(&'static str, i32),
+    /// the first n in-root openat2 calls answer EAGAIN (exactly the retry budget of one lookup)
+    EagainFirst(usize),
 }
 
-struct Faulter(Fault);
+struct Faulter(Fault, usize);
 
 fn returns_fd(kind: &str) -> bool {
     matches!(kind, "openat" | "openat2" | "dup" | "fsopen" | "fsmount" | "open_tree" | "dir_open")
 }
 
+/// an operation that makes more system calls than this is taken not to terminate
+pub const CALL_BUDGET: usize = 20000;
+
 impl Interposer for Faulter {
     fn pre(&mut self, idx: usize, call: &Call) -> Action {
+        // (calls interposed at libc symbol level sit below an `extern "C"` frame: a panic cannot unwind through it)
+        if idx > CALL_BUDGET && !matches!(call.kind, "readlink_abs" | "close" | "dup") {
+            panic!("verif: call budget of {CALL_BUDGET} system calls exceeded (the operation does not terminate?)");
+        }
         match &self.0 {
+            Fault::Persistent(kind, e) if call.kind == *kind && call.fds.first().map(|f| *f >= 0).unwrap_or(false) => Action::Fail(*e),
             Fault::Single(k, e) if idx == *k && call.kind != "close" && call.kind != "gettid" && call.kind != "geteuid" => {
                 Action::Fail(*e)
             }
             Fault::Exhaust(k) if idx >= *k && returns_fd(call.kind) => Action::Fail(libc::EMFILE),
+            Fault::EagainFirst(n) if call.kind == "openat2" && call.nums.get(2).map(|r| r & 0x10 != 0).unwrap_or(false) => {
+                self.1 += 1;
+                if self.1 <= *n {
+                    Action::Fail(libc::EAGAIN)
+                } else {
+                    Action::Proceed
+                }
+            }
             Fault::AlwaysEagain if call.kind == "openat2" => {
                 // only lookups below the root of the case, not libpathrs' own procfs handle
                 if call.nums.get(2).map(|r| r & 0x10 != 0).unwrap_or(false) {
@@ -608,13 +628,46 @@ impl Interposer for Faulter {
     fn post(&mut self, _idx: usize, _call: &Call, _resp: &Resp) {}
 }
 
+/// operations whose fault grid always runs in full: the recursive and the multi-step ones
+fn classic_fault_cases() -> Vec<(TreeSpec, Op)> {
+    let mk = |ents: &[(&[u8], Kind)]| {
+        let mut spec = TreeSpec::default();
+        for (p, k) in ents {
+            spec.entries.push(tree::Entry { path: p.to_vec(), kind: k.clone(), mode: 0o755 });
+        }
+        spec
+    };
+    let t = mk(&[
+        (b"a", Kind::Dir),
+        (b"a/b", Kind::Dir),
+        (b"a/b/f1", Kind::File),
+        (b"a/b/f2", Kind::File),
+        (b"a/c", Kind::Dir),
+        (b"a/l", Kind::Link(b"../a/b".to_vec())),
+        (b"f", Kind::File),
+    ]);
+    vec![
+        (t.clone(), Op::RemoveAll { path: b"a".to_vec() }),
+        (t.clone(), Op::MkdirAll { path: b"a/l/n1/n2/n3".to_vec(), mode: 0o755 }),
+        (t.clone(), Op::Rename { src: b"a/b/f1".to_vec(), dst: b"a/c/g".to_vec(), flags: 0 }),
+        (t, Op::CreateFile { path: b"a/l/new".to_vec(), flags: libc::O_WRONLY, mode: 0o644 }),
+    ]
+}
+
 pub fn suite_fault(ctx: &mut Ctx, seed: u64, n: usize, per_case: usize) {
     let mut rng = Rng::new(seed);
+    let classics = classic_fault_cases();
     for i in 0..n {
         let mut crng = rng.fork();
         let case_seed = crng.0;
-        let spec = TreeSpec::generate(&mut crng, 10);
-        let op = gen::gen_op_in(&mut crng, &spec, gen::OpClass::All);
+        let classic = i < classics.len();
+        let (spec, op) = if classic {
+            classics[i].clone()
+        } else {
+            let spec = TreeSpec::generate(&mut crng, 10);
+            let op = gen::gen_op_in(&mut crng, &spec, gen::OpClass::All);
+            (spec, op)
+        };
         if matches!(op, Op::Reopen { .. }) {
             continue;
         }
@@ -632,21 +685,31 @@ pub fn suite_fault(ctx: &mut Ctx, seed: u64, n: usize, per_case: usize) {
                 }
                 grid.push(Fault::Exhaust(k));
             }
-            while grid.len() > per_case {
+            while !classic && grid.len() > per_case {
                 let j = crng.below(grid.len());
                 grid.swap_remove(j);
             }
             grid.push(Fault::AlwaysEagain);
+            grid.push(Fault::EagainFirst(16));
+            if classic {
+                for kind in ["unlinkat", "openat", "mkdirat", "dir_open", "dir_next", "renameat", "fstatat"] {
+                    for e in [libc::EACCES, libc::EIO, libc::EMFILE] {
+                        grid.push(Fault::Persistent(kind, e));
+                    }
+                }
+            }
             for (fi, f) in grid.into_iter().enumerate() {
                 let extra = match &f {
                     Fault::Single(k, e) => format!("fault single at={k} errno={e}\n"),
                     Fault::Exhaust(k) => format!("fault exhaust from={k}\n"),
                     Fault::AlwaysEagain => "fault always_eagain\n".to_string(),
+                    Fault::Persistent(kind, e) => format!("fault persistent kind={kind} errno={e}\n"),
+                    Fault::EagainFirst(n) => format!("fault eagain_first n={n}\n"),
                 };
                 let id = format!("{i}{b}-f{fi}");
                 let mut mk = |_top: &Path, _l: &Labels| {
                     (
-                        Some(Box::new(Faulter(f.clone())) as Box<dyn Interposer>),
+                        Some(Box::new(Faulter(f.clone(), 0)) as Box<dyn Interposer>),
                         Rc::new(RefCell::new(Vec::new())),
                         Rc::new(RefCell::new(Vec::new())),
                     )
@@ -697,7 +760,7 @@ fn first_use_child_f(dir: &Path, fault: Option<Fault>, emulated_procfs: bool) ->
     let pid = unsafe { libc::fork() };
     if pid == 0 {
         unsafe { libc::close(fds[0]) };
-        let ip: Option<Box<dyn Interposer>> = fault.map(|f| Box::new(Faulter(f)) as Box<dyn Interposer>);
+        let ip: Option<Box<dyn Interposer>> = fault.map(|f| Box::new(Faulter(f, 0)) as Box<dyn Interposer>);
         let (r, log) = ops::recorded(ip, || {
             if emulated_procfs {
                 pathrs::verif::FORCE_OPENAT2_ENOSYS.store(true, std::sync::atomic::Ordering::SeqCst);
